@@ -14,7 +14,7 @@ var extraRules = map[string][]string{
 	"envelope-buffer-fresh":      {"C01", "C13"},
 	"no-error-type-assertion":    {"C02", "C06", "C11", "C15", "C19"},
 	"seterror-last":              {"C02", "C03", "C04", "C11", "C14", "C15"},
-	"no-readahead":               {"C01", "C03", "C09"},
+	"no-readahead":               {"C01", "C03", "C09", "C15"},
 	"response-nil-guard":         {"C04", "C06", "C14"},
 	"io-err-strict":              {"C01", "C03", "C04", "C07"},
 	"wire-code-no-default":       {"C02", "C06"},
@@ -45,7 +45,7 @@ var extraRules = map[string][]string{
 	"codec-default-options":        {"C01"},
 	"close-arg-is-outcome":         {"C02", "C15", "C19"},
 	"trailers-after-drain":         {"C02", "C03", "C04", "C11"},
-	"request-started-on-all-exits": {"C14"},
+	"request-started-on-all-exits": {"C14", "C15"},
 	"writer-must-pass-through":     {"C01", "C05"},
 	"index-safety":                 {"C06", "C07", "C18"},
 	// round-4 rules and further sharing
@@ -70,7 +70,7 @@ var extraRules = map[string][]string{
 	"chain-concat-order":              {"C12"},
 	"chain-parity":                    {"C12"},
 	"nil-skipped":                     {"C12"},
-	"hb-response-ready":               {"C11"},
+	"hb-response-ready":               {"C11", "C14"},
 	"eof-compare-is":                  {"C02", "C06", "C15"},
 	"wrote-flag-before-write":         {"C02", "C05", "C11"},
 	"response-headers-flushed":        {"C02", "C05", "C11"},
@@ -91,7 +91,7 @@ var extraRules = map[string][]string{
 	"carrier-pairing":            {"C02"},
 	"holder-fresh":               {"C13"},
 	"bounded-read":               {"C01", "C03", "C07", "C08"},
-	"limit-wiring":               {"C01", "C07", "C15"},
+	"limit-wiring":               {"C01", "C02", "C07", "C15", "C19"},
 	"timeout-arith":              {"C07"},
 	"typed-nil":                  {"C02", "C06", "C07", "C16", "C19"},
 	"frame-layout":               {"C03", "C05", "C07", "C09"},
@@ -100,12 +100,12 @@ var extraRules = map[string][]string{
 	"unary-second-receive":       {"C01", "C05", "C14"},
 	"content-type-codec-inverse": {"C01", "C05", "C07"},
 	"err-fields":                 {"C05", "C11", "C19"},
-	"multi-value":                {"C01", "C05"},
+	"multi-value":                {"C01", "C05", "C19"},
 	"wrap-once":                  {"C12"},
 	"receive-before-user":        {"C01"},
-	"close-once-after-accept":    {"C02", "C05", "C19"},
-	"coded-wrapper-exhaustive":   {"C07", "C19"},
-	"compress-flag-wiring":       {"C08"},
+	"close-once-after-accept":    {"C02", "C05", "C19", "C15"},
+	"coded-wrapper-exhaustive":   {"C04", "C07", "C19"},
+	"compress-flag-wiring":       {"C02", "C08"},
 	"pool-ownership":             {"C08"},
 	"user-visible-same-map":      {"C06"},
 	"header-pairing":             {"C01", "C05", "C10"},
@@ -113,7 +113,7 @@ var extraRules = map[string][]string{
 	"error-replaced-only-when-identified": {"C04", "C15"},
 	"compression-roles":                   {"C07"},
 	"copyn-loop":                          {"C06", "C09", "C14"},
-	"ctx-code-table":                      {"C19"},
+	"ctx-code-table":                      {"C11", "C19"},
 	"ctx-before-io":                       {"C14"},
 	"close-on-all-exits":                  {"C13"},
 	"envelope-reads-bounded":              {"C01", "C03", "C04", "C06", "C07", "C09", "C14"},
@@ -125,7 +125,7 @@ var extraRules = map[string][]string{
 	"unary-send-no-flush-on-failure":      {"C02", "C05"},
 	"spec-stamped-before-chain":           {"C12"},
 	"peer-text-quoted":                    {"C07"},
-	"omitted-field-deref":                 {"C04", "C06", "C07"},
+	"omitted-field-deref":                 {"C02", "C04", "C06", "C07"},
 	"gen-features-unconditional":          {"C17"},
 	"gen-no-reject":                       {"C17"},
 	"gen-import-path-matches-package":     {"C17"},
@@ -134,6 +134,19 @@ var extraRules = map[string][]string{
 	"content-type-echo": {"C07"},
 	"no-recode":         {"C02"},
 	"default-code":      {"C19"},
+	// round-6 rules and sharing
+	"unary-encoding-header-decided": {"C01", "C05", "C08"},
+	"gen-index-result-checked":      {"C17"},
+	"validate-response-exits":       {"C01", "C04", "C05", "C06", "C11"},
+	"pool-nil-guarded":              {"C06", "C07"},
+	"handler-headers-before-close":  {"C05", "C07"},
+	"negotiate-args-from-headers":   {"C08"},
+	"send-does-not-record":          {"C02", "C14"},
+	"conn-spec-verbatim":            {"C12"},
+	"handler-impl-error-passed":     {"C02", "C19"},
+	"transport-error-passthrough":   {"C04", "C06"},
+	"defaults-before-options":       {"C08", "C16"},
+	"close-read-drains":             {"C13"},
 }
 
 func init() {
